@@ -223,14 +223,14 @@ Print Assumptions recovery_clears_runtime_fault.
 
 (* The hypothesis [wf] of the theorems above is an invariant of the public API: it holds after registration
    and after any sequence of ingest / ticketed submission / pass (any outcome) / recovery / eligibility
-   changes / provenance replacement, so the theorems apply to "arbitrary further passes and recovery". *)
-Theorem runtime_wf_preserved : forall S (commit : S -> list N -> cres S) (s0 : S) worlds hs ops,
+   changes / provenance replacement / history restore, so the theorems apply to "arbitrary further passes and recovery". *)
+Theorem runtime_wf_preserved : forall S (commit : S -> list N -> cres S) (fsa : N -> S) (s0 : S) worlds hs ops,
   wf_all (rt_init s0 worlds hs) /\
-  Forall (fun os => wf_all (snd os)) (run_ops S commit (rt_init s0 worlds hs) ops).
-Proof. intros S commit s0 worlds hs ops. exact (conj (rt_init_wf S s0 worlds hs) (api_preserves_wf S commit ops _ (rt_init_wf S s0 worlds hs))). Qed.
-Check runtime_wf_preserved : forall S (commit : S -> list N -> cres S) (s0 : S) worlds hs ops,
+  Forall (fun os => wf_all (snd os)) (run_ops S commit fsa (rt_init s0 worlds hs) ops).
+Proof. intros S commit fsa s0 worlds hs ops. exact (conj (rt_init_wf S s0 worlds hs) (api_preserves_wf S commit fsa ops _ (rt_init_wf S s0 worlds hs))). Qed.
+Check runtime_wf_preserved : forall S (commit : S -> list N -> cres S) (fsa : N -> S) (s0 : S) worlds hs ops,
   wf_all (rt_init s0 worlds hs) /\
-  Forall (fun os => wf_all (snd os)) (run_ops S commit (rt_init s0 worlds hs) ops).
+  Forall (fun os => wf_all (snd os)) (run_ops S commit fsa (rt_init s0 worlds hs) ops).
 Print Assumptions runtime_wf_preserved.
 
 (* rollback_receipt_correlations undoes record_receipt_correlations exactly — all five indexes and the
@@ -261,8 +261,8 @@ Example c09_nonvacuous :
   let cm := table_commit [(12, 2)] in
   let st0 := rt_init (@nil N) [2; 1] [((2, 9), (PAll, false)); ((1, 5), (PAll, false)); ((2, 3), (PBudget 1, false))] in
   let ops := [OpIngest (1, 5) 10; OpIngest (2, 3) 11; OpIngest (2, 3) 14; OpTicketed (2, 9) 13 7] in
-  let st := last (map snd (run_ops tstate cm st0 ops)) st0 in
-  let stb := last (map snd (run_ops tstate cm st0 (ops ++ [OpIngest (2, 9) 12]))) st0 in
+  let st := last (map snd (run_ops tstate cm (fun id => [id]) st0 ops)) st0 in
+  let stb := last (map snd (run_ops tstate cm (fun id => [id]) st0 (ops ++ [OpIngest (2, 9) 12]))) st0 in
   wf_all st /\ wf_all stb /\
   runnable_keys _ (fst stb) = [(1, 5); (2, 3); (2, 9)] /\
   (let '(r', p', o) := super_tick tstate cm (fst stb) (snd stb) in
